@@ -18,6 +18,8 @@ pub fn roundtrip_relation(
     ch: &mut Choices,
     g: &GenCase,
     oh: &OpeningHours,
+    // the syntax tree of `oh`
+    tree: &opening_hours_syntax::rules::OpeningHoursExpression,
     what: &str,
     n_dates: u32,
     units: &mut u64,
@@ -33,8 +35,36 @@ pub fn roundtrip_relation(
         }
         Ok(Ok(x)) => x.with_context(Context::default().with_holidays(g.holidays.holidays.clone())),
     };
-    let structural = guard(|| opening_hours_syntax::parse(&printed).ok() == opening_hours_syntax::parse(&oh.to_string()).ok()).unwrap_or(false);
+    let reparsed_ast = guard(|| opening_hours_syntax::parse(&printed).ok()).unwrap_or(None);
+    let structural = reparsed_ast.as_ref() == Some(tree);
     let dates = DateGen::new(&g.ast, g.base_year, &g.holidays.model);
+    // The reparsed tree differs from the original one (the printer chose another spelling):
+    // equivalence is then a semantic claim, checked on every day of the years the expression
+    // mentions and their neighbours, not only on the probe dates.
+    if !structural && reparsed_ast.is_some() {
+        let mut years: Vec<i32> = crate::gen::dates::mentioned_years(&g.ast);
+        years.truncate(3);
+        years.push(g.base_year);
+        let mut all: Vec<i32> = years.iter().flat_map(|y| [y - 1, *y, y + 1]).filter(|y| (1900..=9999).contains(y)).collect();
+        all.sort();
+        all.dedup();
+        for y in all {
+            let mut d = chrono::NaiveDate::from_ymd_opt(y, 1, 1).unwrap();
+            while chrono::Datelike::year(&d) == y {
+                *units += 1;
+                let a = day_norm(oh, d).map_err(|p| format!("{what}: schedule_at({d}) panicked: {p}"))?;
+                let b = day_norm(&reparsed, d).map_err(|p| format!("reparsed `{printed}`: schedule_at({d}) panicked: {p}"))?;
+                if a != b {
+                    return Err(format!(
+                        "{what} prints as `{printed}`, which parses to another tree and evaluates differently on {d}: original [{}] reparsed [{}]",
+                        fmt_norm(&a),
+                        fmt_norm(&b)
+                    ));
+                }
+                d = d.succ_opt().unwrap();
+            }
+        }
+    }
     for _ in 0..n_dates {
         let d = dates.draw(ch, true);
         *units += 1;
@@ -58,7 +88,7 @@ fn roundtrip(ch: &mut Choices, case: &mut Case) -> Result<(), String> {
     case.key = g.text.clone();
     label_expr(&g.ast, case);
     let mut units = 0;
-    let (printed, _) = roundtrip_relation(ch, &g, &g.oh, &format!("`{}`", g.text), 10, &mut units)?;
+    let (printed, _) = roundtrip_relation(ch, &g, &g.oh, &g.ast, &format!("`{}`", g.text), 10, &mut units)?;
     // the expression-level Display is the same text
     let expr_printed = guard(|| g.ast.to_string()).map_err(|p| format!("expression to_string panicked: {p}"))?;
     if expr_printed != printed {
@@ -66,7 +96,8 @@ fn roundtrip(ch: &mut Choices, case: &mut Case) -> Result<(), String> {
     }
     // normal form
     let norm = guard(|| g.oh.normalize()).map_err(|p| format!("`{}`: normalize panicked: {p}", g.text))?;
-    let (nprinted, _) = roundtrip_relation(ch, &g, &norm, &format!("the normal form of `{}`", g.text), 6, &mut units)?;
+    let norm_tree = g.ast.clone().normalize();
+    let (nprinted, _) = roundtrip_relation(ch, &g, &norm, &norm_tree, &format!("the normal form of `{}`", g.text), 6, &mut units)?;
     case.units = units;
     case.nontrivial = printed != g.text || g.ast.rules.len() >= 2;
     if nprinted != printed {
@@ -86,9 +117,10 @@ fn roundtrip_text(text: &str, case: &mut Case) -> Result<(), String> {
     let choices: Vec<u16> = (0..400u32).map(|i| (i.wrapping_mul(40503) >> 3) as u16).collect();
     let mut ch = Choices::new(&choices);
     let mut units = 0;
-    roundtrip_relation(&mut ch, &g, &g.oh, &format!("`{text}`"), 60, &mut units)?;
+    roundtrip_relation(&mut ch, &g, &g.oh, &g.ast, &format!("`{text}`"), 60, &mut units)?;
     let norm = g.oh.normalize();
-    roundtrip_relation(&mut ch, &g, &norm, &format!("the normal form of `{text}`"), 60, &mut units)?;
+    let norm_tree = g.ast.clone().normalize();
+    roundtrip_relation(&mut ch, &g, &norm, &norm_tree, &format!("the normal form of `{text}`"), 60, &mut units)?;
     Ok(())
 }
 
